@@ -200,4 +200,19 @@ CHECKS["C15"] = {
           "finding D28: a name with leading/trailing white space is stripped on load.",
   "technique": "contract-based deductive verification: AST-generated VCs (cy2py text of the .pyx) with loop invariants, lemma hints and "
                "nonlinear real arithmetic, discharged by z3; bounded round-trip replay for the .poly text format"}
+CHECKS["C18"] = {
+  "text": "Decided clauses: (brightness) get_bright / get_bright_bc / get_bright_perc on lists of events return, per event and independent "
+          "of the other events, the mean / standard deviation / 10th and 90th percentile of the pixels of (image cast to int minus "
+          "background) selected by the mask, with bg_off[k] subtracted one-to-one from averages and percentiles and not from the deviation "
+          "(loop invariants over uninterpreted per-event statistics); (crosstalk) correct_crosstalk applied to fl = t C returns t_k for "
+          "every channel k, any non-negative spill-over matrix C with unit diagonal that is invertible (N-LINALG-INV plus a regrouping "
+          "lemma); (volume) one truncated-cone term negates under reversed orientation, equals dz(R^2+Rr+r^2) and scales with s^3 (lemmas), "
+          "and get_volume hands coordinates relative to the centroid to the orientation test and to both half volumes with the pixel size "
+          "as scale; (frame) get_inert_ratio_prnc never writes to the caller's contours.",
+  "note": "Not decided by contracts (see DESIGN.md): contour tracing of masks and refilling (marching squares in compiled code), moment "
+          "symmetries and rotation invariance of the inertia ratios (trigonometry, OpenCV-style accumulation), convergence of the volume "
+          "for discretised spheres, the summation over segments in vol_revolve (only the segment term is proved). Assumed: P-* payload "
+          "axioms, N-LINALG-INV, real arithmetic for floating point, cont_moments_cv / counter_clockwise / vol_revolve stubs at their call sites.",
+  "technique": "contract-based deductive verification: AST-generated VCs with loop invariants over uninterpreted per-event statistics, "
+               "nonlinear real arithmetic lemmas and structural data-flow signatures, discharged by z3"}
 NOT_APPLICABLE = {}
